@@ -180,7 +180,7 @@ theorem stopped_means_drained (cfg : Cfg) (hf : Fixed cfg) (progC progP : List O
       rw [hl] at this; cases this
 
 /-
-NOT PROVED (full statement kept here; only sampled by the python oracle's `steady` branch):
+PROVED in `Props/C16Steady.lean` (`steady_all_written`, `steady_fini_all_written`); the statement as first written here:
 
   theorem steady_all_written (cfg) (hf : Fixed cfg) (progC progP) (hw : WF cfg progC progP)
       (hs : ∀ op ∈ progC ++ progP, op ≠ .enable false ∧ op ≠ .threaded false) (sched) :
